@@ -112,6 +112,17 @@ chk("C19", "Precedence: CrossHair confirms over all paths, for each of the 8 opt
     TRUST + " PARTIAL: histogram1d, scatter, plot and every plot=True path go through matplotlib and are not covered.",
     "CrossHair contracts on parse_layer/Layer + symbolic execution of map/histogram2d with argument snapshots", "DESIGN.md section 5 C19")
 
+LOADTXT = ("Bounded symbolic model checking of the real loader: RamsesDataset(...).load() runs on SYMBOLIC RAMSES FILES (ramses/layout.py, written from "
+           "RAMSES' own output routines): noutput, the width of the bound_key record, the number of ghost/boundary grids in every (file, level, "
+           "domain) slot, every stored double, oct centre and son index are z3 symbols. Every struct.unpack is discharged by the record-locator "
+           "obligation (aligned, type-correct, in bounds for ALL symbolic sizes: LIA validity) and the loaded groups are compared row by row "
+           "(provenance symbols) with the tree oracle: positions, sizes, levels, owners, every stored variable times the unit factor implied by "
+           "unit_d/unit_l/unit_t with the dimension of its label, vectors, derived variables, metadata. Counterexamples are replayed END TO END on "
+           "real binary files through the un-instrumented loader.")
+chk("C01", LOADTXT, TRUST + " Structure enumerated (ndim 1-3, ncpu<=2(3), levels<=3(4), boundary regions<=1(2), 4 tree shapes, 3 variable lists); "
+    "text files parsed by osyris' own eval/np.loadtxt on enumerated texts; byte order and >=2GiB records outside.",
+    "symbolic execution of the real loader on symbolic files; SMT (LIA record-locator obligations, LRA value obligations)", "DESIGN.md sections 4, 5 C01")
+
 for pid in ["C01", "C03", "C04", "C05", "C06", "C07", "C08", "C09", "C10", "C11", "C12", "C13", "C14", "C15", "C16",
             "C17", "C18", "C19", "C20"]:
     NA.setdefault(pid, "check under construction in this round (solver-based harness designed in DESIGN.md section 5, not yet registered)")
